@@ -37,6 +37,13 @@ def make_contexts(m, rng, k):
     ints = interesting_ints(m)
     alpha = sorted({b for st in m['states'] for t in st['trans'] for b in (t['on'] if len(t['on']) < 20 else [])} | {97, 0, 200})
     ctxs = [[]]
+    bools = [o for o in m['outs'] if o['type'] == 'bool']
+    if bools and len(bools) <= 4 and all(o['type'] in ('bool', 'int') for o in m['outs']):
+        # few boolean outputs: enumerate every combination (ints stay as start() left them unless listed below)
+        import itertools
+        for combo in itertools.product([0, 1], repeat=len(bools)):
+            ctxs.append(['V %s %d' % (o['name'], v) for o, v in zip(bools, combo)])
+        return ctxs
     fills = ['empty', 'near', 'full']
     for j in range(k - 1):
         cmds = []
